@@ -182,3 +182,140 @@ Proof.
     rewrite app_assoc. rewrite (IH (pre ++ wenc (wfld n v)) fuel Hf' Hnd Hpk). cbn [tcons map].
     unfold msg_child at 2. cbn [fst snd]. rewrite Hfd. reflexivity.
 Qed.
+
+(* ------------------------------------------------------------------ scanChildren of a list *)
+Lemma scan_packed_run k xs : forall scan pre rest fuel i llen,
+  is_numeric k = true -> Forall (fun x => scalar_okb k x = true) xs ->
+  scan_packed all_fixes false scan (length xs + Datatypes.S fuel) (TScalar k) (pre ++ penc k xs ++ rest) (plen pre)
+              (plen pre + plen (penc k xs)) llen i =
+  TOk (index_children (TScalar k) i (map (VScalar k) xs)) (plen pre + plen (penc k xs)).
+Proof.
+  induction xs as [|x xs IH]; intros scan pre rest fuel i llen Hk Hall.
+  - cbn [length plus scan_packed map index_children penc flat_map]. change (plen (@nil Z)) with 0. rewrite Z.add_0_r, Z.ltb_irrefl. reflexivity.
+  - assert (Hx : scalar_okb k x = true) by (inversion Hall; assumption).
+    assert (Hxs : Forall (fun x => scalar_okb k x = true) xs) by (inversion Hall; assumption).
+    rewrite penc_cons. pose proof (scalar_val_plen_pos k x). pose proof (plen_nonneg (penc k xs)).
+    cbn [length plus scan_packed]. rewrite plen_app.
+    destruct (Z.ltb_spec (plen pre) (plen pre + (plen (wenc_val (scalar_to_wire k x)) + plen (penc k xs)))); [|lia].
+    destruct (scalar_rt k x Hk Hx) as [_ [Hwf Hwt]]. rewrite <- app_assoc.
+    rewrite (hc_single scan pre (scalar_to_wire k x) (penc k xs ++ rest) (TScalar k) (PIndex i) llen 0 Hwf (eq_sym Hwt) (kind_small_numeric _ Hk)).
+    cbn [lift]. rewrite app_assoc.
+    replace (plen pre + plen (wenc_val (scalar_to_wire k x))) with (plen (pre ++ wenc_val (scalar_to_wire k x))) by (rewrite plen_app; lia).
+    replace (plen pre + (plen (wenc_val (scalar_to_wire k x)) + plen (penc k xs))) with (plen (pre ++ wenc_val (scalar_to_wire k x)) + plen (penc k xs)) by (rewrite plen_app; lia).
+    rewrite (IH scan _ rest fuel (i + 1) llen Hk Hxs). cbn [tcons map index_children kind_of_type]. reflexivity.
+Qed.
+
+Lemma scan_unpacked_run S t vs : forall scan pre fuel i fnum,
+  Forall (fun x => wf_fld S LSingular t x = true) vs -> wf_wire (map (pair fnum) (map sval vs)) = true ->
+  scan_unpacked all_fixes false scan (length vs + Datatypes.S fuel) t (pre ++ wenc (map (pair fnum) (map sval vs))) (plen pre) fnum i =
+  TOk (index_children t i vs) (plen pre + plen (wenc (map (pair fnum) (map sval vs)))).
+Proof.
+  induction vs as [|x vs IH]; intros scan pre fuel i fnum Hall Hww.
+  - cbn [length plus scan_unpacked map wenc flat_map index_children]. rewrite app_nil_r. change (plen (@nil Z)) with 0.
+    rewrite Z.add_0_r, Z.ltb_irrefl. reflexivity.
+  - assert (Hx : wf_fld S LSingular t x = true) by (inversion Hall; assumption).
+    assert (Hxs : Forall (fun x => wf_fld S LSingular t x = true) vs) by (inversion Hall; assumption).
+    cbn [map] in *. cbn [wf_wire forallb] in Hww. apply andb_true_iff in Hww as [Hf Hws]. fold (wf_wire (map (pair fnum) (map sval vs))) in Hws.
+    destruct (wf_singular_facts _ _ _ Hx) as [Hw [Hwt [Htt Ee]]].
+    rewrite wenc_cons. cbn [length plus scan_unpacked].
+    destruct (record_skip pre (fnum, sval x) (wenc (map (pair fnum) (map sval vs))) Hf) as [Hc _]. cbn [fst snd] in Hc.
+    pose proof (wenc_field_plen_pos (fnum, sval x)). pose proof (plen_nonneg (wenc (map (pair fnum) (map sval vs)))).
+    rewrite plen_app at 1.
+    destruct (Z.ltb_spec (plen pre) (plen pre + plen (wenc_field (fnum, sval x) ++ wenc (map (pair fnum) (map sval vs))))); [|rewrite plen_app in *; lia].
+    rewrite Hc, Z.eqb_refl. cbn [negb].
+    set (tg := tagb fnum (wt_of_wval (sval x))).
+    assert (Eb : pre ++ wenc_field (fnum, sval x) ++ wenc (map (pair fnum) (map sval vs)) =
+                 (pre ++ tg) ++ wenc_val (sval x) ++ wenc (map (pair fnum) (map sval vs))).
+    { rewrite wenc_field_tagb. cbn [fst snd]. fold tg. repeat rewrite <- app_assoc. reflexivity. }
+    rewrite Eb. rewrite <- plen_app.
+    rewrite (hc_single scan (pre ++ tg) (sval x) _ t (PIndex i) (plen tg) 0 Hw (eq_sym Hwt) Htt). cbn [lift].
+    rewrite <- plen_app. rewrite app_assoc.
+    rewrite (IH scan ((pre ++ tg) ++ wenc_val (sval x)) fuel (i + 1) fnum Hxs Hws). cbn [tcons index_children]. rewrite Ee.
+    f_equal. rewrite wenc_field_tagb. cbn [fst snd]. fold tg. rewrite !plen_app. lia.
+Qed.
+
+(* ------------------------------------------------------------------ scanChildren of a map *)
+Lemma scan_map_run S kk t kvs : forall scan pre fuel fnum,
+  (kk =? 9) || kind_is_int kk = true -> 1 <= fnum <= MAX_FIELD_NUMBER ->
+  Forall (fun kx => key_okb kk (fst kx) = true /\ wf_fld S LSingular t (snd kx) = true /\ wf_entry (entry_of kx) = true) kvs ->
+  plen (pre ++ wenc (map (erec fnum) (map entry_of kvs))) < 9223372036854775808 ->
+  scan_map all_fixes false scan (length kvs + Datatypes.S fuel) kk t (pre ++ wenc (map (erec fnum) (map entry_of kvs))) (plen pre) fnum =
+  TOk (map (fun kx => ATree (key_step (fst kx)) (kind_of_type t) (encode_elem (snd kx)) []) kvs)
+      (plen pre + plen (wenc (map (erec fnum) (map entry_of kvs)))).
+Proof.
+  induction kvs as [|[k x] kvs IH]; intros scan pre fuel fnum Hkk Hn Hall Hlen.
+  - cbn [length plus scan_map map wenc flat_map]. rewrite app_nil_r. change (plen (@nil Z)) with 0. rewrite Z.add_0_r, Z.ltb_irrefl. reflexivity.
+  - assert (Hkx : key_okb kk k = true /\ wf_fld S LSingular t x = true /\ wf_entry (entry_of (k, x)) = true) by (inversion Hall; assumption).
+    assert (Hall' : Forall (fun kx => key_okb kk (fst kx) = true /\ wf_fld S LSingular t (snd kx) = true /\ wf_entry (entry_of kx) = true) kvs)
+      by (inversion Hall; assumption).
+    destruct Hkx as [Hk [Hx Hwe]]. cbn [fst snd] in Hk, Hx.
+    destruct (wf_singular_facts _ _ _ Hx) as [Hw [Hwt [Htt Ee]]].
+    set (e := entry_of (k, x)) in *. set (rest := wenc (map (erec fnum) (map entry_of kvs))).
+    unfold wf_entry in Hwe. apply andb_true_iff in Hwe as [Hwe Hl]. apply andb_true_iff in Hwe as [Hkw Hxw]. apply Z.ltb_lt in Hl.
+    pose proof (ebody_plen_pos e) as Hpos.
+    set (tg := tagb fnum 2). set (lenb := varint_enc (plen (ebody e))).
+    set (t1 := tagb 1 (wt_of_wval (kval (fst e)))). set (kb := wenc_val (kval (fst e))).
+    set (t2 := tagb 2 (wt_of_wval (snd e))). set (xb := wenc_val (snd e)).
+    cbn [map]. fold e. rewrite wenc_cons. fold rest.
+    set (buf := pre ++ wenc_field (erec fnum e) ++ rest).
+    assert (E0 : buf = pre ++ tg ++ (lenb ++ t1 ++ kb ++ t2 ++ xb ++ rest)).
+    { unfold buf. rewrite erec_enc. unfold evalb. fold tg lenb. unfold ebody. fold t1 kb t2 xb. repeat rewrite <- app_assoc. reflexivity. }
+    assert (E1 : buf = (pre ++ tg) ++ lenb ++ (t1 ++ kb ++ t2 ++ xb ++ rest)) by (rewrite E0; repeat rewrite <- app_assoc; reflexivity).
+    assert (E2 : buf = (pre ++ tg ++ lenb) ++ t1 ++ (kb ++ t2 ++ xb ++ rest)) by (rewrite E0; repeat rewrite <- app_assoc; reflexivity).
+    assert (E3 : buf = (pre ++ tg ++ lenb ++ t1) ++ kb ++ (t2 ++ xb ++ rest)) by (rewrite E0; repeat rewrite <- app_assoc; reflexivity).
+    assert (E4 : buf = (pre ++ tg ++ lenb ++ t1 ++ kb) ++ t2 ++ (xb ++ rest)) by (rewrite E0; repeat rewrite <- app_assoc; reflexivity).
+    assert (E5 : buf = (pre ++ tg ++ lenb ++ t1 ++ kb ++ t2) ++ xb ++ rest) by (rewrite E0; repeat rewrite <- app_assoc; reflexivity).
+    assert (E6 : buf = (pre ++ wenc_field (erec fnum e)) ++ rest) by (unfold buf; rewrite <- app_assoc; reflexivity).
+    assert (Hlen' : plen buf < 9223372036854775808) by (unfold buf, rest; cbn [map] in Hlen; rewrite wenc_cons in Hlen; exact Hlen).
+    assert (Hbl : plen (ebody e) <= plen buf).
+    { rewrite E0, !plen_app. unfold ebody. fold t1 kb t2 xb. rewrite !plen_app.
+      pose proof (plen_nonneg pre). pose proof (plen_nonneg tg). pose proof (plen_nonneg lenb). pose proof (plen_nonneg rest). lia. }
+    assert (Hlt : plen pre < plen buf).
+    { rewrite E0, !plen_app. unfold tg, tagb. destruct (varint_enc_cons (fnum * 8 + 2)) as [b [tt E]]. rewrite E, plen_cons.
+      pose proof (plen_nonneg tt). pose proof (plen_nonneg lenb). pose proof (plen_nonneg t1). pose proof (plen_nonneg kb).
+      pose proof (plen_nonneg t2). pose proof (plen_nonneg xb). pose proof (plen_nonneg rest). lia. }
+    cbn [length plus scan_map]. destruct (Z.ltb_spec (plen pre) (plen buf)); [|lia].
+    assert (Hc0 : ctag buf (plen pre) = Some (fnum, 2, plen tg)).
+    { rewrite E0. unfold tg. apply ctag_enc; [exact Hn|unfold wt_ok; auto]. }
+    rewrite Hc0, Z.eqb_refl. cbn [negb].
+    assert (Hal : aread_length buf (plen pre + plen tg) = Some (plen (ebody e), plen (pre ++ tg ++ lenb))).
+    { unfold aread_length. rewrite <- plen_app. rewrite E1. unfold lenb. rewrite cvar_enc by (change (2 ^ 64) with 18446744073709551616; lia).
+      rewrite to_s64_small by lia. fold lenb. rewrite !plen_app. f_equal. f_equal. lia. }
+    rewrite Hal. destruct (Z.leb_spec (plen (ebody e)) 0); [lia|].
+    assert (Hc1 : ctag buf (plen (pre ++ tg ++ lenb)) = Some (1, wt_of_wval (kval (fst e)), plen t1)).
+    { rewrite E2. unfold t1. apply ctag_enc; [unfold MAX_FIELD_NUMBER; lia|apply wt_of_wval_ok]. }
+    rewrite Hc1.
+    replace (plen (pre ++ tg ++ lenb) + plen t1) with (plen (pre ++ tg ++ lenb ++ t1)) by (rewrite !plen_app; lia).
+    assert (Hkey : (if kk =? 9
+                    then match aread_string buf (plen (pre ++ tg ++ lenb ++ t1)) with Some (b, r) => Some (PStrKey b, r) | None => None end
+                    else if kind_is_int kk
+                         then match aread_int buf (plen (pre ++ tg ++ lenb ++ t1)) kk with Some (x0, r) => Some (PIntKey x0, r) | None => None end
+                         else None) = Some (key_step k, plen (pre ++ tg ++ lenb ++ t1 ++ kb))).
+    { unfold e, entry_of in kb, t1. cbn [fst snd] in kb, t1. unfold kb, kval in *.
+      destruct k as [k' v|bs]; cbn [key_okb] in Hk.
+      - apply andb_true_iff in Hk as [Hk Hok]. apply andb_true_iff in Hk as [Ek Hnum]. apply Z.eqb_eq in Ek. subst k'.
+        destruct (Z.eqb_spec kk 9) as [->|_]; [cbn in Hnum; discriminate|].
+        assert (Hki : kind_is_int kk = true) by (apply orb_true_iff in Hkk; destruct Hkk as [E|E]; [discriminate E|exact E]).
+        rewrite Hki. cbn [key_field snd key_step] in *. rewrite E3. rewrite aread_int_enc by assumption.
+        rewrite !plen_app. f_equal. f_equal. unfold kval. cbn [key_field snd fst]. lia.
+      - apply andb_true_iff in Hk as [Ek Hlb]. apply Z.eqb_eq in Ek. subst kk. cbn [Z.eqb Pos.eqb]. apply Z.ltb_lt in Hlb.
+        cbn [key_field snd key_step] in *. rewrite E3. unfold kval. cbn [key_field snd fst]. rewrite aread_string_enc by exact Hlb.
+        rewrite !plen_app. f_equal. f_equal. unfold kval. cbn [key_field snd fst]. lia. }
+    rewrite Hkey.
+    assert (Hc2 : ctag buf (plen (pre ++ tg ++ lenb ++ t1 ++ kb)) = Some (2, wt_of_wval (snd e), plen t2)).
+    { rewrite E4. unfold t2. apply ctag_enc; [unfold MAX_FIELD_NUMBER; lia|apply wt_of_wval_ok]. }
+    rewrite Hc2.
+    replace (plen (pre ++ tg ++ lenb ++ t1 ++ kb) + plen t2) with (plen (pre ++ tg ++ lenb ++ t1 ++ kb ++ t2)) by (rewrite !plen_app; lia).
+    assert (Eend : plen (pre ++ tg ++ lenb ++ t1 ++ kb ++ t2) + plen (wenc_val (sval x)) = plen (pre ++ wenc_field (erec fnum e))).
+    { rewrite erec_enc. unfold evalb. fold tg lenb. unfold ebody. fold t1 kb t2 xb. unfold xb, e, entry_of. cbn [snd]. rewrite !plen_app. lia. }
+    assert (Hh : handle_child all_fixes false scan buf (plen (pre ++ tg ++ lenb ++ t1 ++ kb ++ t2)) (plen t2) LSingular t 0 (key_step k) =
+                 inl (Some (ATree (key_step k) (kind_of_type t) (wenc_val (sval x)) [], plen (pre ++ wenc_field (erec fnum e))))).
+    { rewrite E5. unfold xb, e, entry_of. cbn [snd].
+      rewrite (hc_single scan _ (sval x) rest t (key_step k) (plen t2) 0 Hw (eq_sym Hwt) Htt). rewrite Eend. reflexivity. }
+    rewrite Hh. cbn [lift]. rewrite E6.
+    assert (Hlen'' : plen ((pre ++ wenc_field (erec fnum e)) ++ wenc (map (erec fnum) (map entry_of kvs))) < 9223372036854775808)
+      by (fold rest; rewrite <- E6; exact Hlen').
+    unfold rest at 1.
+    rewrite (IH scan (pre ++ wenc_field (erec fnum e)) fuel fnum Hkk Hn Hall' Hlen'').
+    cbn [tcons map fst snd]. rewrite Ee. f_equal. fold rest. rewrite !plen_app. lia.
+Qed.
